@@ -50,7 +50,7 @@ func (fc *FuncCtx) monitorEnter(fr *Frame, st *State, owner types.Type, field, r
 			for _, k := range keys {
 				ms.keys[k] = true
 			}
-			fc.havocKeys(st, ms.matcher())
+			fc.havocKeys(st, ms.matcher(), "")
 		}
 	}
 	for _, inv := range invs {
